@@ -13,6 +13,7 @@ import (
 	"encoding/binary"
 	"fmt"
 	"math/rand"
+	"sync"
 	"time"
 
 	"mangosverif/l1run"
@@ -70,10 +71,11 @@ const (
 
 // Kind is one protocol variant.
 type Kind struct {
-	ID     int
-	Name   string
-	New    func() mangos.ProtocolBase
-	Choose func(g *G) (Op, bool)
+	KeepRecv bool // Recv keeps the latest message object for re-use (Op.S == 3)
+	ID       int
+	Name     string
+	New      func() mangos.ProtocolBase
+	Choose   func(g *G) (Op, bool)
 	// MkSend builds header and body of Send call t (send number n)
 	MkSend func(g *G, o Op, t, n int) (hdr, body []byte)
 	// MkDeliver builds the bytes pipe `pipe` yields (delivery number k)
@@ -84,25 +86,29 @@ type Kind struct {
 
 // G is the state of one history's generation.
 type G struct {
-	R        *rand.Rand
-	D        *seq.Driver
-	K        *Kind
-	Timed    bool
-	Alive    map[int]bool
-	Hold     map[int]bool
-	NextPipe int
-	NextCall int
-	NSend    int
-	NDeliv   int
-	Closed   bool
-	Passes   int
-	TTL      int
-	LastFrom int // pipe of the latest delivery
-	Held     *mangos.Message // a sent message the application kept a reference of (Op.S)
-	HeldH    []byte
-	HeldB    []byte
-	NStep    int // operations applied so far
-	IsRecv   map[int]bool
+	R         *rand.Rand
+	D         *seq.Driver
+	K         *Kind
+	Timed     bool
+	Alive     map[int]bool
+	Hold      map[int]bool
+	NextPipe  int
+	NextCall  int
+	NSend     int
+	NDeliv    int
+	Closed    bool
+	Passes    int
+	TTL       int
+	LastFrom  int  // pipe of the latest delivery
+	KeepRecv  bool // Recv keeps the latest message object instead of freeing it (for Op.S == 3)
+	lastMu    sync.Mutex
+	lastMsg   *mangos.Message
+	lastTaken *mangos.Message
+	Held      *mangos.Message // a sent message the application kept a reference of (Op.S)
+	HeldH     []byte
+	HeldB     []byte
+	NStep     int // operations applied so far
+	IsRecv    map[int]bool
 }
 
 // Tag builds be16(a) be16(b) followed by 0..2 random bytes (the trace oracles identify messages by this tag, so it is
@@ -186,7 +192,7 @@ func Gen(kinds []*Kind) l1run.GenFunc {
 		}
 		p := k.New()
 		d := seq.NewDriver(p)
-		g := &G{R: r, D: d, K: k, Timed: timed, Alive: map[int]bool{}, Hold: map[int]bool{}, TTL: 8, IsRecv: map[int]bool{}}
+		g := &G{R: r, D: d, K: k, Timed: timed, Alive: map[int]bool{}, Hold: map[int]bool{}, TTL: 8, IsRecv: map[int]bool{}, KeepRecv: k.KeepRecv}
 		d.Steps = append(d.Steps, seq.Step{Stim: fmt.Sprintf("SCall 0 (COpenCtx %d)", k.ID)})
 		if script != nil {
 			for _, o := range script {
@@ -224,6 +230,21 @@ func Gen(kinds []*Kind) l1run.GenFunc {
 	}
 }
 
+// HasLast reports whether a received message object is waiting to be re-used.
+func (g *G) HasLast() bool {
+	g.lastMu.Lock()
+	defer g.lastMu.Unlock()
+	return g.lastMsg != nil
+}
+
+func (g *G) takeLast() *mangos.Message {
+	g.lastMu.Lock()
+	defer g.lastMu.Unlock()
+	g.lastTaken = g.lastMsg
+	g.lastMsg = nil
+	return g.lastTaken
+}
+
 // Apply executes one operation and records the step.
 func (g *G) Apply(o Op) {
 	d := g.D
@@ -249,7 +270,16 @@ func (g *G) Apply(o Op) {
 	case "drop":
 		n := o.A
 		g.Alive[n] = false
-		d.DropPipe(d.Pipes[n])
+		if o.B == 1 {
+			// the peer goes away while a write to it is in flight, and that write still completes successfully (a stream
+			// write racing with the close): for the protocol the pipe is gone all the same
+			d.Pipes[n].SetDeferClose(true)
+			d.DropPipe(d.Pipes[n])
+			for d.Pipes[n].Release(true) {
+			}
+		} else {
+			d.DropPipe(d.Pipes[n])
+		}
 		d.Finish(fmt.Sprintf("SDropPipe %d", n), nil, false, t0)
 	case "send":
 		g.NextCall++
@@ -261,7 +291,13 @@ func (g *G) Apply(o Op) {
 		}
 		proto := d.Proto
 		var m *mangos.Message
-		if o.S == 2 && g.Held != nil {
+		if o.S == 3 && g.takeLast() != nil {
+			// the application re-uses the message object its latest Recv returned (refilled with new content): Message.Pipe
+			// still names the pipe that one arrived on -- which says nothing about where this one is going
+			m = g.lastTaken
+			m.Header = append(m.Header[:0], hdr...)
+			m.Body = append(m.Body[:0], body...)
+		} else if o.S == 2 && g.Held != nil {
 			// the message sent before, of which the application kept a reference: the library took its own reference
 			// then, so this one is still exactly what the application built (header included)
 			m, hdr, body = g.Held, g.HeldH, g.HeldB
@@ -294,7 +330,16 @@ func (g *G) Apply(o Op) {
 				return nil, err
 			}
 			r := &seq.Msg{Header: append([]byte{}, m.Header...), Body: append([]byte{}, m.Body...)}
-			m.Free()
+			if g.KeepRecv {
+				g.lastMu.Lock()
+				if g.lastMsg != nil {
+					g.lastMsg.Free()
+				}
+				g.lastMsg = m
+				g.lastMu.Unlock()
+			} else {
+				m.Free()
+			}
 			return r, nil
 		})
 		d.Finish(fmt.Sprintf("SCall %d (CRecv 0)", t), nil, false, t0)
